@@ -560,6 +560,13 @@ class SReal:
 
     def _bin(self, o: Any, f: Callable, refl: bool = False, name: str = "") -> Any:
         o = _np_item(o)
+        if isinstance(o, builtins.complex):
+            from .cplx import SCplx
+
+            a, b = SCplx(self, 0.0), SCplx.lift(o)
+            if refl:
+                a, b = b, a
+            return {"add": a.__add__, "sub": a.__sub__, "mul": a.__mul__}[name](b)
         if _is_nonfinite(o):
             return _nonfinite_arith(name, self, o, refl)
         try:
